@@ -22,6 +22,7 @@ class TypeModel:
         # the function that really contains the steps (wrapper followed)
         self.pfn = self.pb["path"] if self.pb else None
         if self.g and self.g.sites:
+            # the function that holds the first step (the inherent parse_from_block4 when the trait fn delegates)
             self.pfn = self.g.sites[0].fn
         self.sfn = self.sb["path"] if self.sb else None
 
@@ -176,13 +177,13 @@ def g3(rep, tms, F):
                 continue
             inst = "%s:%s" % (s.tag, G.short(s.ty))
             if c in DISCARD:
-                rep.add(Finding("G3", s.fn, inst,
+                rep.add(Finding("G3", tm.pfn, inst,
                                 "result of %s::<%s>(\"%s\") is consumed by `%s`: a field with invalid content "
                                 "is consumed and its error discarded (message accepted with the field dropped)"
                                 % (s.node.get("m") or s.node.get("f"), G.short(s.ty), s.tag, c),
                                 tm.file, s.ln))
             else:
-                rep.add(Finding("G3", s.fn, inst + ":unclassified",
+                rep.add(Finding("G3", tm.pfn, inst + ":unclassified",
                                 "result of parse step %s(\"%s\") flows to `%s`, which is not a recognised "
                                 "propagation idiom" % (s.node.get("m"), s.tag, c), tm.file, s.ln))
     # MessageParser itself + utils: T::parse results must be propagated
@@ -511,7 +512,7 @@ def g4_g5_g6(rep, tms):
             else:
                 bad = sorted(t for t in em if t != s.tag)
             if bad:
-                rep.add(Finding("G5", s.fn, "%s:%s" % (s.tag, G.short(s.ty)),
+                rep.add(Finding("G5", tm.pfn, "%s:%s" % (s.tag, G.short(s.ty)),
                                 "step reads tag %s%s into %s, whose serialiser can emit %s: the re-serialised "
                                 "text carries a tag the parser does not read at this position"
                                 % (s.tag, "a" if s.variant else "", G.short(s.ty), ",".join(":%s:" % b for b in bad)),
@@ -564,7 +565,7 @@ def g7(rep, tms, F):
                 for t in sorted(tags):
                     letter = t[len(s.tag):] if t.startswith(s.tag) else None
                     if letter and letter not in known:
-                        rep.add(Finding("G7", s.fn, "%s:%s:%s" % (s.tag, G.short(s.ty), letter),
+                        rep.add(Finding("G7", tm.pfn, "%s:%s:%s" % (s.tag, G.short(s.ty), letter),
                                         "option %s%s of %s cannot be detected at this step (detector knows %s): "
                                         "a :%s: field here is skipped or rejected although the model has the "
                                         "variant" % (s.tag, letter, G.short(s.ty), "".join(sorted(known)), t),
